@@ -166,8 +166,9 @@ def markdown_escape_word(word: str) -> str:
     return word
 
 
-# A paragraph that begins like a link reference definition (`[label]: and more text`).
-_md_def_label_pat = re.compile(r"\s*\[(?:[^\[\]\\]|\\.)+\]:")
+# A paragraph that begins like a link reference definition (`[label]: and more text`;
+# not `[^label]:`, which is a footnote reference followed by a colon).
+_md_def_label_pat = re.compile(r"\s*\[(?!\^)(?:[^\[\]\\]|\\.)+\]:")
 
 
 def markdown_first_line_is_rule(lines: list[str]) -> bool:
